@@ -21,3 +21,74 @@ Theorem sem_run_fuel_monotone : forall isem prog ri entry args orc n k r,
   run_program isem prog ri entry args orc (n + k) = Some r.
 Proof. exact run_program_fuel_mono. Qed.
 Print Assumptions sem_run_fuel_monotone.
+
+From Coq Require Import Bool.
+From MirV Require Import Base.W64 C01.Peephole C01.PeepholeProofs.
+Import ListNotations.
+Local Open Scope Z_scope.
+
+(* transform_mul_div (mir-gen.c): multiplication by 2^k is the left shift by k, for every operand
+   value, at both widths (the 32-bit guard k < 32 is the fix 085bd33b) ... *)
+Theorem mul_pow2_rewrite_sound : forall a k, 0 <= k < 64 ->
+  int_val MUL [a; 2 ^ k] = int_val LSH [a; k].
+Proof. exact mul_pow2_is_lsh. Qed.
+Print Assumptions mul_pow2_rewrite_sound.
+
+Theorem muls_pow2_rewrite_sound : forall a k, 0 <= k < 32 ->
+  int_val MULS [a; 2 ^ k] = int_val LSHS [a; k].
+Proof. exact muls_pow2_is_lshs. Qed.
+Print Assumptions muls_pow2_rewrite_sound.
+
+(* ... which is false without the guard (DESIGN section 6 #10) *)
+Theorem muls_pow2_unguarded_refuted : exists a, int_val MULS [a; u32 (2 ^ 32)] <> int_val LSHS [a; 32].
+Proof. exact muls_pow2_32_refuted. Qed.
+Print Assumptions muls_pow2_unguarded_refuted.
+
+(* unsigned division by 2^k is the logical right shift *)
+Theorem udiv_pow2_rewrite_sound : forall a k, 0 <= a < 2 ^ 64 -> 0 <= k < 64 ->
+  int_val UDIV [a; 2 ^ k] = int_val URSH [a; k].
+Proof. exact udiv_pow2_is_ursh. Qed.
+Print Assumptions udiv_pow2_rewrite_sound.
+
+Theorem udivs_pow2_rewrite_sound : forall a k, 0 <= a < 2 ^ 32 -> 0 <= k < 32 ->
+  int_val UDIVS [a; 2 ^ k] = int_val URSHS [a; k].
+Proof. exact udivs_pow2_is_urshs. Qed.
+Print Assumptions udivs_pow2_rewrite_sound.
+
+(* signed division by 2^k (1 <= k <= 62; 2^63 is not a positive int64): the five-instruction bias
+   sequence  rsh 63 ; and 2^k-1 ; add ; rsh k  computes the truncating quotient for every dividend,
+   negative ones included *)
+Theorem div_pow2_rewrite_sound : forall a k, 0 <= a < 2 ^ 64 -> 1 <= k <= 62 ->
+  div_pow2_seq a k = int_val DIV [a; 2 ^ k].
+Proof. exact div_pow2_seq_correct. Qed.
+Print Assumptions div_pow2_rewrite_sound.
+
+(* 32-bit: rshs 31 ; ands ; adds ; rshs k, 1 <= k <= 30 *)
+Theorem divs_pow2_rewrite_sound : forall a k, 0 <= a < 2 ^ 32 -> 1 <= k <= 30 ->
+  divs_pow2_seq a k = int_val DIVS [a; 2 ^ k].
+Proof. exact divs_pow2_seq_correct. Qed.
+Print Assumptions divs_pow2_rewrite_sound.
+
+(* The dataflow passes (mir-gen.c solve_dataflow) iterate a transfer function until no "changed" flag
+   is raised.  If a false flag really means "unchanged" and every change consumes some of a finite
+   height, the loop ends in a fixpoint of the sweep, whatever the sweep is ... *)
+Theorem dataflow_fixpoint_if_flags_exact :
+  forall (S : Type) (step : S -> S * bool) (measure : S -> nat),
+  (forall s, snd (step s) = false -> fst (step s) = s) ->
+  (forall s, snd (step s) = true -> (measure (fst (step s)) < measure s)%nat) ->
+  forall n s, (measure s <= n)%nat ->
+  step (iterate S step (Datatypes.S n) s) = (iterate S step (Datatypes.S n) s, false).
+Proof. exact iterate_reaches_fixpoint. Qed.
+Print Assumptions dataflow_fixpoint_if_flags_exact.
+
+(* ... and it can stop short of one when a flag may be false although the state changed *)
+Theorem dataflow_inexact_flags_refuted :
+  exists (step : nat -> nat * bool) s n, fst (step (iterate nat step n s)) <> iterate nat step n s.
+Proof. exact iterate_inexact_flags_refuted. Qed.
+Print Assumptions dataflow_inexact_flags_refuted.
+
+(* non-vacuity: the bias sequence on the most negative dividend and on -1 *)
+Example div_pow2_examples :
+  div_pow2_seq (2 ^ 63) 3 = Some (u64 (- 2 ^ 60)) /\ div_pow2_seq (2 ^ 64 - 1) 1 = Some 0 /\
+  divs_pow2_seq (2 ^ 31) 30 = Some (u32 (-2)).
+Proof. repeat split. Qed.
